@@ -21,20 +21,20 @@ import rules_struct
 
 PROPS = {
     "C02": {
-        "rules": [rules_wt.run, rules_follow.make("R-HDR", "C02"), rules_follow.make("R-INIT", "C02"), rules_struct.freshid, rules_struct.hdrcount("C02"), rules_struct.hdrv3("C02"), rules_struct.parenttype("C02")],
+        "rules": [rules_wt.run, rules_follow.make("R-HDR", "C02"), rules_follow.make("R-INIT", "C02"), rules_struct.freshid, rules_struct.hdrcount("C02"), rules_struct.hdrv3("C02"), rules_struct.parenttype("C02"), rules_entry.gstore],
         "explanation": "R-WT: every store site to an in-memory mirror of on-disk state (cached FAT/DIFAT/DIFAT-sector list, MiniFAT and its start sector, directory entry table, sector count; enumerated automatically from MIR: &mut borrows of mirror fields, stores through dir_entry_mut, direct field stores) is paired in the same function with a file write of the same datum "
                        "(same value by provenance, or write_dir_entry/write_to/seek_within_dir_entry+write_le_u32 of the same entry id at the field's offset), either dominating the store or on every Ok path after it; six listed exceptions with reasons. "
                        "R-HDR: header counters (words 40/44/60/64/68/72) are rewritten in the same function that changes the chain they count, on every Ok path. R-INIT: every sector handed out by allocate_sector - reused from the free list or appended - is reset with the caller's initialiser before it is returned (a directory sector recycled without SectorInit::Dir would reopen as garbage entries).",
         "not_decided": "that the bytes reopen to the same state; that the right value is written; crash points inside an operation",
     },
     "C03": {
-        "rules": [rules_follow.make("R-MARK"), rules_follow.make("R-HDR", "C03"), rules_follow.make("R-BLANK"), rules_follow.make("R-INIT", "C03"), rules_own.make("C03"), rules_entry.gstore, rules_layout.run("C03"), rules_struct.cutoff, rules_struct.unit, rules_struct.freshid, rules_follow.make("R-FREEOLD", "C03"), rules_struct.hdrcount("C03"), rules_struct.hdrv3("C03"), rules_struct.parenttype("C03"), rules_struct.initkind("C03"), rules_struct.linkkeep("C03"), rules_struct.unlink("C03"), rules_struct.blankown("C03"), rules_struct.killread("C03"), rules_struct.ceil("C03"), rules_entry.slotreset("C03")],
+        "rules": [rules_follow.make("R-MARK"), rules_follow.make("R-HDR", "C03"), rules_follow.make("R-BLANK"), rules_follow.make("R-INIT", "C03"), rules_own.make("C03"), rules_entry.gstore, rules_layout.run("C03"), rules_struct.cutoff, rules_struct.unit, rules_struct.freshid, rules_follow.make("R-FREEOLD", "C03"), rules_struct.hdrcount("C03"), rules_struct.hdrv3("C03"), rules_struct.parenttype("C03"), rules_struct.initkind("C03"), rules_struct.linkkeep("C03"), rules_struct.unlink("C03"), rules_struct.blankown("C03"), rules_struct.killread("C03"), rules_struct.ceil("C03"), rules_entry.slotreset("C03"), rules_guard.make("R-BEGINGUARD"), rules_follow.make("R-FREEREBUILD", "C03")],
         "explanation": "Format-maintenance obligations visible as code shape: R-MARK (FAT/DIFAT sectors marked as such; allocated cell END_OF_CHAIN before use; freed cells FREE), R-HDR (header counts follow the chains), "
                        "R-BLANK (a removed entry's slot is overwritten with DirEntry::unallocated() on disk), R-GSTORE (no CLSID/timestamps on streams: every store to those fields is dominated by a test excluding ObjType::Stream; only storages are stamped at creation), R-OWN (allocation protocol: who may change FAT cells / free lists / initialise sectors), R-LAYOUT (symbolic walk of DirEntry::read_from/write_to and Header::read_from/write_to in control-flow order: same widths, counts and fields at the same offsets, totals 128 and 512, in-place patch offsets 68/72/76 and 40/44/60/64/68/72/76 equal the derived field offsets).",
         "not_decided": "single ownership of sectors, no orphans, chain length vs stream size, sibling-tree order and colouring: invariants over the contents of FAT and directory across histories",
     },
     "C07": {
-        "rules": [rules_entry.reloc, rules_entry.hstore, rules_own.make("C07"), rules_struct.cutoff, rules_entry.moveall, rules_struct.unlink("C07"), rules_struct.blankown("C07"), rules_struct.linkkeep("C07"), rules_follow.make("R-MARK", "C07"), rules_struct.freshid, rules_entry.fieldown("C07")],
+        "rules": [rules_entry.reloc, rules_entry.hstore, rules_own.make("C07"), rules_struct.cutoff, rules_entry.moveall, rules_struct.unlink("C07"), rules_struct.blankown("C07"), rules_struct.linkkeep("C07"), rules_follow.make("R-MARK", "C07"), rules_struct.freshid, rules_entry.fieldown("C07"), rules_follow.make("R-FREEREBUILD", "C07")],
         "explanation": "A handle is bound to its stream only by a slot index, so: R-RELOC - every whole-entry store into the directory table takes a freshly constructed entry (DirEntry::new/unallocated/empty_root_entry/read_from by provenance), never a copy of another slot, and no Vec reordering is applied to the table; "
                        "R-HSTORE - all DirEntry field stores reachable (call graph) from Stream methods are confined to start_sector/stream_len, no structural directory operation is reachable from a handle, and with_dir_entry_mut is applied to the handle's own stream_id; R-OWN - FAT/MiniFAT cells, sector (re)initialisation and the free lists change only inside the allocator's protocol functions with the protocol's argument shapes (a sector taken outside the protocol could be handed to two chains, so that a write through one handle lands in another stream).",
         "not_decided": "that the bytes of other streams are untouched (sector ownership is value-level); validity of a handle after its own stream is removed",
@@ -50,7 +50,7 @@ PROPS = {
         "assumptions": ["audited sink entries (rules/sinks.json) record a human judgement made once by reading the code; the analysis re-checks only that their required guards still dominate the sink"],
     },
     "C06": {
-        "rules": [rules_io.flushfirst, rules_io.window, rules_io.posdim, rules_io.poskeep, rules_struct.cutoff, rules_zero.run, rules_struct.ceil("C06"), rules_api.errkind("C06")],
+        "rules": [rules_io.flushfirst, rules_io.window, rules_io.posdim, rules_io.poskeep, rules_struct.cutoff, rules_zero.run, rules_struct.ceil("C06"), rules_api.errkind("C06"), rules_io.buffull("C06")],
         "explanation": "Cache-protocol clauses of the hand-written stream buffer, decided as path properties over the MIR of every Stream method: "
                        "R-FLUSHFIRST (every window move - store to buf_offset_from_start, StreamBuffer::clear, refill_with - is preceded on every path by the ok successor of flush_changes, with no mark_modified in between) and "
                        "R-WINDOW (after the window offset is stored, every path to any return, error exits included, passes clear or a successful refill), R-POSDIM (every value stored as window offset or stream length is a stream position - old offset + buffer-relative amount, current_position(), or a validated absolute target - never a bare buffer cursor), R-ERRKIND rows (the five out-of-range seeks are InvalidInput).",
@@ -63,7 +63,7 @@ PROPS = {
         "not_decided": "that the bytes are zero and that the zero-filled range is exactly [old, new): values",
     },
     "C09": {
-        "rules": [rules_name.validname, rules_name.norm, rules_name.orient, rules_struct.unit, rules_struct.unlink("C09"), rules_struct.blankown("C09"), rules_struct.linkkeep("C09"), rules_struct.fold("C09"), rules_det.narrow_in("C09", ["internal::path::"], "the name validation / comparison functions"), rules_struct.namelen("C09"), rules_api.errkind("C09")],
+        "rules": [rules_name.validname, rules_name.norm, rules_name.orient, rules_struct.unit, rules_struct.unlink("C09"), rules_struct.blankown("C09"), rules_struct.linkkeep("C09"), rules_struct.fold("C09"), rules_det.narrow_in("C09", ["internal::path::"], "the name validation / comparison functions"), rules_struct.namelen("C09"), rules_api.errkind("C09"), rules_name.normbody("C09"), rules_struct.namelimit("C09")],
         "explanation": "R-VALIDNAME (must-pass-through, interprocedural): from every DirEntry::new call with a non-constant name, walking up the call graph along the name argument to the public methods, some function validates the name (ok successor of validate_name on data derived from the same parameter dominates the forwarding call; a completed validation loop counts) and no state mutation precedes that validation on the chain. "
                        "R-NORM: every API method's path parameter reaches only name_chain_from_path (or formatting / forwarding to another API method), and lookups/inserts/removals take names derived from its result. "
                        "R-ORIENT: all compare_names sites agree on orientation (sought name first; Less -> left_sibling, Greater -> right_sibling in both the walk and the link update; validate rejects exactly != Less for (left,node) and (node,right)); no other comparator touches entry names in the directory layer. "
@@ -71,7 +71,7 @@ PROPS = {
         "not_decided": "that compare_names is the CFB order over all Unicode (ASCII fast path vs general path, upper-casing table); that names are stored verbatim and found under every case variant",
     },
     "C10": {
-        "rules": [rules_api.noeffect, rules_name.validname_effects_only, rules_api.deeprefusal],
+        "rules": [rules_api.noeffect, rules_name.validname_effects_only, rules_api.deeprefusal, rules_struct.namelimit("C10")],
         "explanation": "R-NOEFFECT (must-not-precede): refusal points of every API method (io::Error::new with NotFound/AlreadyExists/InvalidInput, and error exits of effect-free fallible callees that can construct such kinds) are enumerated from MIR; "
                        "no path from the entry to a refusal point may pass a call whose transitive effects include a state/file mutation, a Stream drop, or a store to a Stream field. R-VALIDNAME(noeffect): the refusal of an invalid name (made below the API layer, in the directory code) is not preceded by a mutation anywhere on the creation call chain.",
         "not_decided": "bit-for-bit equality of state (follows from 'no effect ran' only given that effect-free code is effect-free, which the effect closure establishes for this crate); partial effects of the compound operations create_storage_all/remove_storage_all when a later step is refused by a callee",
@@ -84,7 +84,7 @@ PROPS = {
         "assumptions": ["audited sink entries (rules/sinks.json) record a human judgement made once by reading the code; the analysis re-checks only that their required guards still dominate the sink"],
     },
     "C12": {
-        "rules": [rules_io.errdisc(["io_read", "io_seek"], "read"), rules_io.window, rules_det.noerrafter("C12"), rules_det.seekfirst],
+        "rules": [rules_io.errdisc(["io_read", "io_seek"], "read"), rules_io.window, rules_det.noerrafter("C12"), rules_det.seekfirst, rules_io.posatomic("C12")],
         "explanation": "R-ERRDISC(read): every call site whose callee transitively performs backend read/seek and returns io::Result is classified by what happens to the Result (?, returned, matched with an Err arm that returns Err; not dropped, .ok(), unwrap_or, is_ok). "
                        "R-WINDOW on error exits: after the buffer window offset moves, no error exit may leave the old window's bytes in place.",
         "not_decided": "that the bytes returned equal the fault-free run (values); behaviour of std's read_exact/read_to_end themselves",
@@ -97,13 +97,13 @@ PROPS = {
         "not_decided": "no panic/hang after a failed write on half-updated state (C11's question); that the flushed bytes are the accepted bytes (values)",
     },
     "C15": {
-        "rules": [rules_guard.make("R-REUSE.consult"), rules_follow.make("R-REUSE"), rules_guard.make("R-CAP"), rules_follow.make("R-FREEOLD", "C15"), rules_own.make("C15"), rules_struct.killread("C15"), rules_mode.rawfield("C15"), rules_struct.linkkeep("C15"), rules_struct.ceil("C15"), rules_struct.dirlen("C15")],
+        "rules": [rules_guard.make("R-REUSE.consult"), rules_follow.make("R-REUSE"), rules_guard.make("R-CAP"), rules_follow.make("R-FREEOLD", "C15"), rules_own.make("C15"), rules_struct.killread("C15"), rules_mode.rawfield("C15"), rules_struct.linkkeep("C15"), rules_struct.ceil("C15"), rules_struct.dirlen("C15"), rules_guard.make("R-BEGINGUARD"), rules_follow.make("R-FREEREBUILD", "C15"), rules_struct.trimloop("C15")],
         "explanation": "R-REUSE: (a) every append path of allocate_sector / allocate_mini_sector / allocate_dir_entry is dominated by the 'nothing free' outcome of the free-list query (guard atoms); (b) every free feeds the list (free_sector => set_fat(FREE) + free_sectors.push on all Ok paths; likewise mini sectors; free_chain frees each visited sector); (c) validate rebuilds both lists from exactly the FREE cells. "
                        "R-CAP: the branch guarding each extension of the mini-stream chain and of the MiniFAT chain has the chain's physical length (Chain::len / num_sectors) in its condition, not only the logical length that shrinks on release. R-FREEOLD: wherever a stream that already has a chain is moved to a freshly started chain (mini<->regular migration), and before a removed stream's entry goes away, the old chain is freed first on every path.",
         "not_decided": "that file size is constant from the second repetition of any net-zero cycle (values of the free lists over histories); LIFO order; truncation of the file (the code has none)",
     },
     "C16": {
-        "rules": [rules_mode.run, rules_struct.sibflag("C16"), rules_mode.rawfield("C16")],
+        "rules": [rules_mode.run, rules_struct.sibflag("C16"), rules_mode.rawfield("C16"), rules_mode.builder("C16")],
         "explanation": "R-MODE over all is_strict() tests (19 call sites): S - the region of the CFG dominated by the strict edge of each mode test contains no store, no mutating call and no Ok return, only refusals of kind InvalidData; "
                        "P/N - the region dominated by the permissive edge is either a listed normaliser that only pops/truncates its listed vector (DIFAT zero-stripping, FAT tail stripping, MiniFAT truncation) or a canonicalising assignment nested inside a documented deviation test; no refusal is made only in permissive mode. "
                        "Deviation inventory: each of the 18 documented deviations is located (regexes over guard atoms) as a refusal with is_strict() on its path (or, for the zero-padded FAT, an unconditional refusal pre-empted by the permissive normaliser).",
@@ -117,7 +117,7 @@ PROPS = {
         "not_decided": "exact values returned; 100 ns rounding direction; saturation limits; clock bracketing of a new storage's times (values)",
     },
     "C18": {
-        "rules": [rules_det.short, rules_det.seekfirst, rules_det.nondet, rules_io.poskeep, rules_det.kindkeep("C18"), rules_det.trunc("C18")],
+        "rules": [rules_det.short, rules_det.seekfirst, rules_det.nondet, rules_io.poskeep, rules_det.kindkeep("C18"), rules_det.trunc("C18"), rules_follow.make("R-RETRY", "C18")],
         "explanation": "R-SHORT: each of the short-count primitives (Read::read/Write::write call sites) returns its count to the caller and advances its position by exactly that count, so results cannot depend on how the backend splits transfers; everything else uses exact-transfer forms. "
                        "R-SEEKFIRST: raw backend I/O occurs only in Sector methods, the absolute-seek helpers and two listed sequential constructors; a Sector is only built after a successful seek(SeekFrom::Start). "
                        "R-NONDET: clock reads confined to Timestamp::now (from insert_dir_entry) and touch; no iteration over randomly seeded hash containers; no pointer-to-integer casts.",
@@ -189,6 +189,24 @@ _ADDED3 = {
     "C17": " R-CLOSURESTORE: closures passed to with_(root_)dir_entry_mut never replace the whole entry.",
 }
 for _pid, _txt in _ADDED3.items():
+    PROPS[_pid]["explanation"] = PROPS[_pid]["explanation"] + _txt
+
+_ADDED4 = {
+    "C02": " R-GSTORE also runs for this property (a stamped stream does not reopen: strict refuses it, permissive zeroes the time).",
+    "C03": " R-BEGINGUARD: the MiniFAT chain / mini-stream chain is begun only where its start field was found to be END_OF_CHAIN. R-FREEREBUILD: FAT cells repaired at open are followed by the rebuild of the free list.",
+    "C06": " R-BUFFULL: the window buffer refuses a write only when it has no room at all (otherwise Stream::write returns Ok(0) for a slice longer than the buffer).",
+    "C07": " R-FREEREBUILD as for C03 (a live FAT sector on the free list is handed to a stream).",
+    "C09": " R-NORMBODY: the normaliser returns only the vector it fills from Path::components(), and pushes only Component::Normal payloads. R-NAMELIMIT: validate_name measures names in UTF-16 code units.",
+    "C10": " R-NAMELIMIT as for C09 (a name that passes validation but does not fit the 32-unit field is refused only when the entry is serialised, after it was allocated and linked).",
+    "C12": " R-POSATOMIC: after a Stream method moved the position no error exit (and no fallible call whose Result is handed back) is reachable.",
+    "C13": " R-ERRDISC also treats a Result that is only probed with is_ok()/is_err() as discarded. R-RETRY rows for Chain::write / MiniChain::write (see C18).",
+    "C14": " R-LOCK.6: in operations reachable from stream handles the write lock is never taken inside a loop (one operation, one critical section per mutation).",
+    "C15": " R-BEGINGUARD, R-FREEREBUILD as for C03. R-TRIMLOOP: the trimming of trailing free MiniFAT entries in free_mini_sector is a loop.",
+    "C16": " R-BUILDER: every OpenOptions method that returns OpenOptions hands on the validation mode it received (or sets Strict).",
+    "C17": " R-SETTER rows for the public setters: Ok is returned only through the lookup + write-through helper (or where is_stream/exists/is_storage answered true).",
+    "C18": " R-RETRY rows: a sector allocated in Chain::write / MiniChain::write is recorded in the chain's id list before anything else can fail (an Interrupted write is repeated by write_all).",
+}
+for _pid, _txt in _ADDED4.items():
     PROPS[_pid]["explanation"] = PROPS[_pid]["explanation"] + _txt
 
 
